@@ -96,6 +96,7 @@ ASSUMPTIONS = ["dimension fixed to 1 and 2 (loop-free unrolling); coordinates fu
 
 # --------------------------------------------------------------------------- any dimension: loop invariant over the product of the 1-D Gram factors
 from pyvc.book import Loop  # noqa: E402
+from pyvc import prelude as P  # noqa: E402
 from pyvc.values import TupleSeq  # noqa: E402
 
 I_, R_ = z3.IntSort(), z3.RealSort()
@@ -164,3 +165,132 @@ class RValueAnyDim(Contract):
 
 CONTRACTS += [RValueAnyDim()]
 ASSUMPTIONS += ["any-dimension contract: GramPrefix(k) is the product of the first k one-dimensional Gram factors (ghost recursion); the 1-D factor identity is the same as in the fixed-dimension contracts"]
+
+
+# --------------------------------------------------------------------------- scalar hat evaluations (any dimension) and the adjacency test
+HP = z3.Function("HatPrefix", I_, R_)        # product of the first k one-dimensional hat values (ghost recursion)
+
+
+def zmax0(e):
+    return z3.If(e >= 0, e, z3.RealVal(0))
+
+
+def hat1d(p, lo, hi, x):
+    """1-D non-symmetric hat with peak p on [lo, hi]: 1 at p, linear to 0 at lo and hi, 0 outside (the reference all vectorised variants are
+    compared with by layer B)"""
+    return z3.If(x >= p, zmax0(1 - (x - p) / (hi - p)), zmax0(1 - (p - x) / (p - lo)))
+
+
+class HatNonSymmetric(Contract):
+    file, qualname = FILE, "DensityEstimation.hat_function_non_symmetric"
+    label = "DensityEstimation.hat_function_non_symmetric[standard basis, any dimension]"
+
+    def inputs(self, S):
+        dim = S.int("dim")
+        S.assume(dim >= 1)
+        env = {"self": Obj("DensityEstimation", dict(dim=dim, grid=Obj("GlobalTrapezoidalGrid", dict(modified_basis=False)))),
+               "point": S.seq("point", dim, R_), "x": S.seq("x", dim, R_),
+               "domain": TupleSeq(dim, [S.array("d_lo", I_, R_), S.array("d_hi", I_, R_)])}
+        k = z3.Int("hk")
+        S.assume(HP(0) == 1, "def:HatPrefix")
+        S.assume(z3.ForAll([k], z3.Implies(z3.And(k >= 0, k < dim), HP(k + 1) == HP(k) * self.factor(env, k)), patterns=[HP(k + 1)]), "def:HatPrefix")
+        return env
+
+    @staticmethod
+    def factor(env, k):
+        return hat1d(z3.Select(env["point"].arr, k), z3.Select(env["domain"].arrays[0], k), z3.Select(env["domain"].arrays[1], k), z3.Select(env["x"].arr, k))
+
+    def pre(self, S, env):
+        k = z3.Int("hq")
+        p, lo, hi = z3.Select(env["point"].arr, k), z3.Select(env["domain"].arrays[0], k), z3.Select(env["domain"].arrays[1], k)
+        return [("peak-strictly-inside-its-support", z3.ForAll([k], z3.Implies(z3.And(k >= 0, k < env["self"].fields["dim"]), z3.And(lo < p, p < hi)),
+                                                               patterns=[z3.Select(env["point"].arr, k)]))]
+
+    def inv(self, S, env, g):
+        from pyvc import values as Vv
+        old = S.ex.old
+        return [("partial-product", Vv.to_z3(env["result"], True) == HP(g["k"]), "nokeep", ["def:HatPrefix", "loop0/inv#partial-product", "pre#peak"]),
+                ("inputs-untouched", z3.And(env["point"].arr == old["point"].arr, env["x"].arr == old["x"].arr))]
+
+    @property
+    def loops(self):
+        return {0: Loop(inv=lambda S, env, g: self.inv(S, env, g))}
+
+    def post(self, S, old, env, result):
+        from pyvc import values as Vv
+        return [Cl("value-is-the-product-of-the-1-D-hats", Vv.to_z3(result, True) == HP(old["self"].fields["dim"]), prop=True)]
+
+
+class CheckAdjacency(Contract):
+    file, qualname = FILE, "DensityEstimation.check_adjacency"
+
+    def inputs(self, S):
+        n = S.int("n")
+        S.assume(n >= 0)
+        return {"self": Obj("DensityEstimation", {}), "ivec": S.seq("ivec", n, I_), "jvec": S.seq("jvec", n, I_)}
+
+    def pre(self, S, env):
+        return [("same-length", env["ivec"].len() == env["jvec"].len())]
+
+    def inv(self, S, env, g):
+        j = z3.Int("cj")
+        old = S.ex.old
+        d = z3.Select(old["ivec"].arr, j) - z3.Select(old["jvec"].arr, j)
+        return [("adjacent-so-far", z3.ForAll([j], z3.Implies(z3.And(j >= 0, j < g["k"]), z3.And(d <= 1, d >= -1)))),
+                ("inputs-untouched", z3.And(env["ivec"].arr == old["ivec"].arr, env["jvec"].arr == old["jvec"].arr))]
+
+    @property
+    def loops(self):
+        return {0: Loop(inv=lambda S, env, g: self.inv(S, env, g))}
+
+    def post(self, S, old, env, result):
+        j = z3.Int("pj2")
+        d = z3.Select(old["ivec"].arr, j) - z3.Select(old["jvec"].arr, j)
+        adjacent = z3.ForAll([j], z3.Implies(z3.And(j >= 0, j < old["ivec"].len()), z3.And(d <= 1, d >= -1)))
+        r = result if not isinstance(result, bool) else z3.BoolVal(result)
+        return [Cl("true-exactly-when-the-indices-differ-by-at-most-one-in-every-dimension", r == adjacent, prop=True)]
+
+
+UP = z3.Function("UniformHatPrefix", I_, R_)
+
+
+class HatUniform(Contract):
+    """nodal hat of a uniform component grid: value == product over the dimensions of max(1 - |2^l_d x_d - i_d|, 0)"""
+    file, qualname = FILE, "DensityEstimation.hat_function"
+    label = "DensityEstimation.hat_function[uniform grid, any dimension]"
+
+    def inputs(self, S):
+        dim = S.int("dim")
+        S.assume(dim >= 1)
+        env = {"self": Obj("DensityEstimation", dict(dim=dim)), "ivec": S.seq("ivec", dim, I_), "lvec": S.seq("lvec", dim, I_), "x": S.seq("x", dim, R_)}
+        k = z3.Int("uk")
+        S.assume(UP(0) == 1, "def:UniformHatPrefix")
+        S.assume(z3.ForAll([k], z3.Implies(z3.And(k >= 0, k < dim), UP(k + 1) == UP(k) * self.factor(env, k)), patterns=[UP(k + 1)]), "def:UniformHatPrefix")
+        return env
+
+    @staticmethod
+    def factor(env, k):
+        t = z3.ToReal(P.POW2(z3.Select(env["lvec"].arr, k))) * z3.Select(env["x"].arr, k) - z3.ToReal(z3.Select(env["ivec"].arr, k))
+        return zmax0(1 - z3.If(t >= 0, t, -t))
+
+    def pre(self, S, env):
+        k = z3.Int("uq")
+        return [("levels-nonneg", z3.ForAll([k], z3.Implies(z3.And(k >= 0, k < env["self"].fields["dim"]), z3.Select(env["lvec"].arr, k) >= 0), patterns=[z3.Select(env["lvec"].arr, k)]))]
+
+    def inv(self, S, env, g):
+        from pyvc import values as Vv
+        old = S.ex.old
+        return [("partial-product", Vv.to_z3(env["result"], True) == UP(g["k"]), "nokeep", ["def:UniformHatPrefix", "loop0/inv#partial-product", "pre#levels"]),
+                ("inputs-untouched", z3.And(env["ivec"].arr == old["ivec"].arr, env["lvec"].arr == old["lvec"].arr, env["x"].arr == old["x"].arr))]
+
+    @property
+    def loops(self):
+        return {0: Loop(inv=lambda S, env, g: self.inv(S, env, g))}
+
+    def post(self, S, old, env, result):
+        from pyvc import values as Vv
+        return [Cl("value-is-the-product-of-the-1-D-uniform-hats", Vv.to_z3(result, True) == UP(old["self"].fields["dim"]), prop=True)]
+
+
+CONTRACTS += [HatNonSymmetric(), HatUniform(), CheckAdjacency()]
+ASSUMPTIONS += ["hat_function_non_symmetric: standard basis (grid.modified_basis False); HatPrefix(k) is the product of the first k one-dimensional hat values (ghost recursion)"]
